@@ -21,7 +21,7 @@ SPEC = dict(
          "replace/drop/add go through shardedSearcher.replace; non-trivial = at least one replace or drop. ownership cases (84 quick / "
          "400 thorough): 1-3 shards from a pool of generated shard images served from memory the test owns (every fifth trial: really "
          "mmap'd scratch files), every combination of {LineMatches, ChunkMatches} x {Whole} x {NumContextLines 0,1,3} over seven query "
-         "kinds (content / file name / either / regexp / symbol / const / or), through the raw index searcher, raw + the real copyFiles, "
+         "kinds (content / file name / either / regexp / symbol / const / or), display limits in ~45 % of the trials, through the raw index searcher, raw + the real copyFiles, "
          "shardedSearcher.Search and StreamSearch; the result is deep-copied by a reflective walk over every []byte and string, the shard "
          "memory is overwritten (XOR 0xff) or unmapped (IndexFile.Close) and the result walked again; non-trivial = the raw result had "
          "views of shard memory in at least two fields.",
